@@ -585,7 +585,11 @@ def eval_cmd(ctx, case: dict, work: pathlib.Path):
             if scenario == 'bad-geometry':
                 geom_arg = case['bad_geometry']
             argv += ['--', str(inp), geom_arg, str(outp)]
-            if case.get('work_dir'):
+            if case.get('work_dir') == 'same':
+                # scratch files kept next to the result: the directory the output goes to is also the work directory
+                outp.parent.mkdir(parents=True, exist_ok=True)
+                argv = [cmd, '--work_dir', str(outp.parent)] + argv[1:]
+            elif case.get('work_dir'):
                 wd = d / 'wd'
                 wd.mkdir()
                 argv = [cmd, '--work_dir', str(wd)] + argv[1:]
@@ -999,7 +1003,7 @@ def command_cases(ctx) -> list:
                     text += GC.blanks(rng, 0.3) + ',' + GC.blanks(rng, 0.3) + p
                 cases.append({'k': 'cmd', 'cmd': 'clip', 'recipe': rec, 'bounds': vals, 'bounds_text': text,
                               'geom_how': how, 'geom_file': rng.choice(['clip.geojson', 'clip.json']),
-                              'work_dir': rng.random() < 0.3})
+                              'work_dir': rng.choice([False, False, False, True, True, 'same'])})
             # ---- extract-points -----------------------------------------------------
             rec = dataset_recipe(rng, conv, ctx.tier, for_clip=False)
             b = G.build(rec['ds'])
